@@ -32,6 +32,7 @@ struct Gen {
     // ---------------------------------------------------------------- parameter choice
     uint32_t pick_k(uint32_t maxk) {
         double u = rng.unit(); uint32_t k;
+        if ((prof == "C03" || prof == "C11") && rng.chance(0.45)) return std::min<uint32_t>((uint32_t)rng.range(12, 90), maxk);   // systems big enough for wide eliminations
         if (u < 0.55) k = (uint32_t)rng.range(1, 12);
         else if (u < 0.85) k = (uint32_t)rng.range(13, 40);
         else if (u < 0.96) k = (uint32_t)rng.range(41, thorough ? 600 : 300);
@@ -96,6 +97,38 @@ struct Gen {
         f.payload = pick_payload(); f.plseed = rng.next() & 0xffffffffu;
         if (f.payload == "ident" && (uint64_t)f.E * 8 < f.k && f.k <= 4096) f.E = (f.k + 7) / 8;
         return f;
+    }
+
+    // A sibling block: the previous block with exactly one parameter changed. Two sessions that agree on part of their
+    // configuration and differ in the rest, alive in the same process, are what exposes state shared across sessions
+    // (a cache that forgets part of its key, a static scratch buffer sized for the other session).
+    bool make_sibling(const Flow &a, Flow &f) {
+        f = a; f.id = next_flow++; f.plseed = rng.next() & 0xffffffffu; f.oti.clear();
+        bool rs = a.codec == C_RS8 || a.codec == C_RS2M;
+        int what = (int)rng.below(5);
+        if (rs) {
+            uint32_t lim = a.codec == C_RS8 ? 255 : (1u << a.m) - 1;
+            switch (what) {
+            case 0: if (a.k + a.r + 1 <= lim) f.r = a.r + 1 + (uint32_t)rng.below(std::min<uint32_t>(8, lim - a.k - a.r)); else if (a.r > 1) f.r = a.r - 1; else return false; break;
+            case 1: if (a.r > 1) f.r = 1 + (uint32_t)rng.below(a.r - 1); else return false; break;
+            case 2: f.E = a.E > 8 ? a.E / 2 : a.E * (2 + (uint32_t)rng.below(40)); break;
+            case 3: if (a.codec == C_RS2M && a.m == 4) { f.m = 8; } else if (a.codec == C_RS2M && a.m == 8 && a.k + a.r <= 15) { f.m = 4; } else if (a.codec == C_RS8 && a.k + a.r <= 15) { f.codec = C_RS2M; f.m = 4; } else return false; break;
+            default: if (a.k > 1) f.k = a.k - 1; else f.k = a.k + 1; if (f.k + f.r > lim) return false; break;
+            }
+        } else if (a.codec == C_LDPC) {
+            switch (what) {
+            case 0: f.r = a.r + 1 + (uint32_t)rng.below(std::max<uint32_t>(1, a.r)); break;
+            case 1: if (a.r > a.N1) f.r = a.N1 + (uint32_t)rng.below(a.r - a.N1); else return false; break;
+            case 2: f.pseed = (uint32_t)rng.range(1, 2147483646LL); break;
+            case 3: f.E = a.E > 8 ? a.E / 2 : a.E * (2 + (uint32_t)rng.below(40)); break;
+            default: { uint32_t n1 = 3 + (uint32_t)rng.below(8); if (n1 == a.N1 || n1 > a.r) return false; f.N1 = n1; if ((a.N1 * a.k) % n1 == 0 && rng.chance(0.7)) f.k = a.N1 * a.k / n1; break; }   // same N1*k
+            }
+            if (f.k == 0 || f.k + f.r > 50000) return false;
+        } else return false;
+        if ((uint64_t)(f.k + f.r) * f.E > 600000u) return false;
+        if (f.payload == "ident" && (uint64_t)f.E * 8 < f.k) f.payload = "rand";
+        cnt("sibling_flows");
+        return true;
     }
 
     // one OTI field replaced by a boundary value (fault on wire-carried parameters, E3)
@@ -244,6 +277,7 @@ struct Gen {
         int sid = add_session(f.id, codec, m, R_ENC, "stream", "none", probe ? "probe" : "flow", "real");
         int64_t t = t0;
         emit(t, sid, "CREATE"); t += 7;
+        if (codec == C_RS2M && rng.chance(prof == "C09" ? 0.4 : 0.15)) { emit(t - 3, sid, "CTRLSET", rng.chance(0.6) ? m : (m == 4 ? 8 : 4)); cnt("field_size_presets"); }
         emit(t, sid, "SETP"); t += 7;
         if (!f.oti.empty() && !in_domain(codec, m, f.k, f.r, f.E, f.N1, f.pseed).inside) { emit(t + 50, sid, "RELEASE"); t_release_hint = t + 50; return t; }
         if (!materialisable(f)) { emit(t + 50, sid, "RELEASE"); t_release_hint = t + 50; return t; }
@@ -285,7 +319,9 @@ struct Gen {
             Op p; p.t = t; p.ses = sid; p.op = op; p.esi = esi; p.arg = arg; p.rs = rs; mine.push_back(Ev{t, 0, p});
         };
         int64_t t = t_oti;
-        put(t, "CREATE"); put(t + 5, "SETP");
+        put(t, "CREATE");
+        if (codec == C_RS2M && rng.chance(prof == "C09" ? 0.4 : 0.15)) { put(t + 2, "CTRLSET", rng.chance(0.6) ? m : (m == 4 ? 8 : 4)); cnt("field_size_presets"); }
+        put(t + 5, "SETP");
         bool usable = in_domain(codec, m, f.k, f.r, f.E, f.N1, f.pseed).inside && materialisable(f);
         if (codec == C_2D) usable = materialisable(f);
         if (!usable) { put(t + 40, "RELEASE"); for (auto &e : mine) { e.seq = seq++; evs.push_back(e); } return; }
@@ -337,10 +373,19 @@ struct Gen {
     }
 
     // ---------------------------------------------------------------- one flow = one block, one sender, 1..3 receivers
-    void flow(int64_t t0, const Swarm &sw) {
+    Flow last_flow; bool have_last = false;
+    void flow(int64_t t0, const Swarm &sw, bool sibling = false) {
         int codec, m; pick_codec(codec, m);
-        Flow f = make_flow(codec, m);
+        Flow f;
+        if (!(sibling && have_last && make_sibling(last_flow, f))) f = make_flow(codec, m);
+        codec = f.codec; m = f.m;
+        last_flow = f; have_last = f.oti.empty();
         if (sw.oti_corrupt && (prof == "C09" ? rng.chance(0.8) : rng.chance(0.15)) && codec != C_2D) corrupt_oti(f);
+        else if (prof == "C15" && codec == C_LDPC && f.oti.empty() && rng.chance(0.08)) {
+            // fewer repair symbols than N1: outside the advertised domain; if a session is configured all the same, its
+            // "last symbol is null" claim is still checked against the symbol it builds
+            f.N1 = (uint32_t)rng.range(4, 10); f.r = (uint32_t)rng.range(1, f.N1 - 1); f.oti = "N1"; cnt("oti_corruptions");
+        }
         plan.flows.push_back(f);
         const bool rs8 = family_of(codec, m) == 8;
         // who sends: a real encoder session, the reference sender (models only), or both (receivers pick)
@@ -431,7 +476,7 @@ struct Gen {
         if (prof == "C05") nfl = (int)rng.range(2, 4);
         int64_t t0 = 0;
         for (int i = 0; i < nfl; i++) {
-            flow(t0, sw);
+            flow(t0, sw, i > 0 && rng.chance(prof == "C12" || prof == "C06" || prof == "C07" ? 0.5 : 0.3));
             // flows overlap in time (one thread, interleaved calls) or follow each other
             if (prof == "C12" || rng.chance(0.7)) t0 += (int64_t)rng.below(3000); else t0 = plan.sim_us + 1000;
         }
